@@ -1,12 +1,12 @@
 (** C05 - property theorems only. Each is closed by [exact] of a lemma proved in
     proofs/IPFilterProofs.v; nothing else lives here.
 
-    The router-level clauses over the full router and the route cache
-    ("denied never dispatched" / "not denied unaffected" for every eviction
-    behaviour and request history) are proved over model/Mux.v (C01/C12) and
+    The router-level clauses over the full router and the route cache (real match
+    conditions, arbitrary cache) are proved over model/Mux.v (C01/C12) and
     re-exported here by the coordinator; the [C05_mini_*] theorems below state
-    them for the mini router of model/IPFilter.v whose control flow the C05
-    harness ties to muxInstance.search. *)
+    them for the mini router of model/IPFilter.v (match conditions abstract, i.e.
+    for every possible outcome of host/path/method/header matching) whose control
+    flow the C05 harness ties to muxInstance.search. *)
 From EG.lib Require Import Base.
 From EG.model Require Import IPFilter.
 From EG.proofs Require Import IPFilterProofs.
